@@ -670,6 +670,25 @@ theorem mempool_destroy_returns_once {mp : MemPool} {live : List Block} {ob : Li
   obtain ⟨hi, ho⟩ := mreach_inv h
   exact ⟨ho, mpDestroy_nodup hi⟩
 
+/-- Frame condition for `mempool_destroy(&handle)`: what is released depends only on the chain of
+    segments — `mpDestroy` does not look at where the handle variable lives (outside the pool, or
+    inside its oldest, a middle or the newest block, as `usual/regex.c` keeps `rxi->pool`): the
+    code reads the handle once, stores NULL into it *before* the first `free`, and then follows
+    `prev` pointers read from each segment before that segment is freed.  So for every reachable
+    pool, wherever a block `b` holding the handle lies, exactly the regions obtained are released,
+    each once, and `b` itself lies inside one of them (it is gone afterwards, never read again). -/
+theorem mempool_destroy_handle_anywhere {mp : MemPool} {live : List Block} {ob : List (Nat × Nat)}
+    (h : MReach mp live ob) (b : Block) (hb : b ∈ live) :
+    mpDestroy mp = ob.reverse ∧ (mpDestroy mp).Nodup ∧
+    ∃ r ∈ mpDestroy mp, r.1 + mpHdr ≤ b.ptr ∧ b.ptr + b.len ≤ r.1 + r.2 := by
+  obtain ⟨hi, ho⟩ := mreach_inv h
+  refine ⟨ho, mpDestroy_nodup hi, ?_⟩
+  obtain ⟨g, hg, hin⟩ := hi.blk_in b hb
+  have hok := hi.seg_ok g hg
+  refine ⟨(g.base, mpHdr + g.size), ?_, ?_⟩
+  · unfold mpDestroy; exact List.mem_map.mpr ⟨g, hg, rfl⟩
+  · simp only [InMSeg, MSegOk] at *; omega
+
 /-- F19, unchanged `mempool_alloc`: in a 512-byte segment with 16 bytes used, a request of
     0xFFFFFFF0 bytes passes the test `cur->used + size <= cur->size` (the sum wraps to 0) and
     `used` becomes 0, so the next block handed out overlaps the first one. -/
